@@ -926,6 +926,10 @@ def c11(ctx):
                     vlib.REPO + "/", g + "/"], check=True)
     shim = os.path.join(vlib.VERIF, "harness", "perl-shim")
     textual = []
+    # the outputs that exist before the run are longer than and different from what must come out (a stale tail must not survive)
+    for rel in ("data/tld-domains.txt", "src/auto_tld.c", "include/eav/auto_tld.h"):
+        with open(os.path.join(g, rel), "ab") as f:
+            f.write(b"zzz-stale-1.zzz-stale-1\nzzz-stale-2.zzz-stale-2\n" * 40)
     # ... through the repository's own recipes (`make auto`, `make tld-domains`), the documented way to regenerate
     r1 = subprocess.run(["make", "-C", g, "auto", "PERL=perl -I" + shim], stdout=subprocess.PIPE, stderr=subprocess.STDOUT, text=True)
     r2 = subprocess.run(["make", "-C", g, "tld-domains", "PERL=perl -I" + shim], stdout=subprocess.PIPE, stderr=subprocess.STDOUT, text=True)
@@ -983,6 +987,49 @@ def c11(ctx):
         if "in" in ev2:
             ev2["text"] = vlib.bytes_to_text(ev2["in"])
         add_violation(ctx, "C11", "table event contradicts data/punycode.csv: %s/%s" % (ev.get("e"), ev.get("src", "is_tld")), ev2)
+    # program 5: the generator as a translation on another input.  The shipped CSV exercises only part of the documented rule
+    # (it has no 'Retired' manager at all): a few rows get the manager values the rule distinguishes, the table is regenerated
+    # through `make auto`, and its rows are validated against ClassOfRow over THAT csv (TldData regenerated for this one run)
+    import csv as _csv, random as _random, gen_tlddata as _gt
+    cpath = os.path.join(g, "data", "punycode.csv")
+    rows_ = list(_csv.reader(open(cpath, newline="", encoding="utf-8")))
+    rng_ = _random.Random(ctx.seed)
+    vals = ["Retired", "RETIRED", "retired", "Not assigned", "not assigned", "Retired (was: Example Registry)", "Un-retired Holdings", "Notassigned Ltd"]
+    for v_, k_ in zip(vals, rng_.sample(range(1, len(rows_)), len(vals))):
+        if len(rows_[k_]) >= 3:
+            rows_[k_][2] = v_
+    with open(cpath, "w", newline="", encoding="utf-8") as f:
+        _csv.writer(f, quoting=_csv.QUOTE_ALL, lineterminator="\n").writerows(rows_)
+    r5 = subprocess.run(["make", "-C", g, "auto", "PERL=perl -I" + shim], stdout=subprocess.PIPE, stderr=subprocess.STDOUT, text=True)
+    if r5.returncode:
+        add_violation(ctx, "C11", "generator fails on a CSV with 'Retired' / 'Not assigned' managers", {"gentld": r5.stdout[-800:]})
+    else:
+        trace5 = ctx.path("table-trace-mutated.ndjson")
+        with open(trace5, "w") as o5:
+            i = 0
+            for line in open(os.path.join(g, "src", "auto_tld.c"), encoding="utf-8", errors="replace"):
+                m = re.match(r'\s*\{\s*"([^"]*)"\s*,\s*(\d+)\s*,\s*(\w+)\s*\}', line)
+                if m:
+                    i += 1
+                    ty = {"TLD_TYPE_NOT_ASSIGNED": 1, "TLD_TYPE_COUNTRY_CODE": 2, "TLD_TYPE_GENERIC": 3, "TLD_TYPE_GENERIC_RESTRICTED": 4,
+                          "TLD_TYPE_INFRASTRUCTURE": 5, "TLD_TYPE_SPONSORED": 6, "TLD_TYPE_TEST": 7, "TLD_TYPE_SPECIAL": 8,
+                          "TLD_TYPE_RETIRED": 9}.get(m.group(3), -1)
+                    o5.write(json.dumps({"e": "row", "src": "generated", "i": i, "term": 0, "d": list(m.group(1).encode()),
+                                         "len": int(m.group(2)), "type": ty}) + "\n")
+                elif re.match(r"\s*\{\s*NULL\s*,\s*0\s*,\s*0\s*\}", line):
+                    o5.write(json.dumps({"e": "row", "src": "generated", "i": i + 1, "term": 1, "d": [], "len": 0, "type": 0}) + "\n")
+            o5.write(json.dumps({"e": "count", "src": "generated", "n": i}) + "\n")
+        sd5 = vlib.spec_dir(ctx)
+        _gt.main(cpath, os.path.join(sd5, "TldData.tla"), os.path.join(g, "data", "raw.csv"))
+        try:
+            n5, bad5 = validate_trace(ctx, "Trace_Table", trace5, workers=1)
+        finally:
+            _gt.main(os.path.join(vlib.REPO, "data", "punycode.csv"), os.path.join(sd5, "TldData.tla"), os.path.join(vlib.REPO, "data", "raw.csv"))
+        n += n5
+        for (ln, ev, note) in bad5:
+            ev2 = dict(ev)
+            ev2["text"] = vlib.bytes_to_text(ev2.get("d", []))
+            add_violation(ctx, "C11", "generated row contradicts the documented rule on a CSV with 'Retired' / 'Not assigned' managers", ev2)
     add_sample(ctx, open(trace).readline().strip())
     add_sample(ctx, "programs: compiled tld_list[] (via exported symbol + is_tld), util/gentld.pl output, util/gen_utf8_pass_test.pl output")
     shutil_rm(g)
@@ -1077,7 +1124,8 @@ def c14(ctx):
                 if line.startswith('"[5,'):
                     f.write(line)
     sample_vectors(ctx, vec)
-    for variant, nth, rounds in (("tsan", 4 if q else 16, 1 if q else 4), ("default", 8 if q else 16, 3 if q else 40)):
+    for variant, nth, rounds in (("tsan", 4 if q else 16, 1 if q else 4), ("tsan-extra", 4 if q else 8, 1 if q else 2),
+                                 ("default", 8 if q else 16, 3 if q else 40)):
         bb = build(ctx, variant, 0)
         exe = vlib.compile_driver(ctx, bb, "threads.c")
         od = ctx.path("threads-" + variant, "x")[:-2]
@@ -1177,13 +1225,16 @@ def c17(ctx):
         suite_wmethod(ctx, "local", optbits=3)
     # the options together with the README's explicit-backend invocation (make FORCE_IDN=.. DEFS=.. LIBS=.. OPTION=ON)
     r7 = tlc_ok(ctx, "MC_Email", cfg({"MaxLen": 0, "Gen": 2, "OptBits": 7}))
-    for be in ("idn",):
-        b7 = build(ctx, "default", 7, be)
-        res = replay(ctx, b7, r7["out"], "c17-o7-%s" % be)
+    # ... and with the options exported in the environment (README: "export or define inline")
+    for b7, tag7 in ((build(ctx, "default", 7, "idn"), "idn"), (build(ctx, "default", 7, opts_via_env=True), "env")):
+        res = replay(ctx, b7, r7["out"], "c17-o7-%s" % tag7)
         crash_violation(ctx, res, ["C06", "C17"])
         for v in res["viol"]:
             if v["kind"] == "email":
                 classify_email(ctx, v, 7)
+    # the option builds where plain char is unsigned
+    suite_sweep(ctx, 2, optbits=2, variants=("uchar",))
+    suite_sweep(ctx, 1, optbits=1, variants=("uchar",))
     plan = [(1, [("local", 2, 5 if q else 6), ("email", 2, 0)]),
             (2, [("local", 5, 4 if q else 5), ("local", 6, 5 if q else 6), ("local", 2, 5), ("email", 2, 0)]),
             (4, [("host", 2, 0), ("host", 1, 5 if q else 7), ("email", 2, 0)]),
@@ -1268,6 +1319,7 @@ def c19(ctx):
     # what a failed conversion left behind must survive any walk through the modes (histories of 9 / 10 calls, mode change = one step)
     suite_object(ctx, 9 if ctx.quick() else 10, faults=3, small=True, graph=False)
     suite_object(ctx, 5, faults=True, small=True, graph=False, variant="ndebug")      # release build: assert() compiled out
+    suite_object(ctx, 5, faults=True, small=True, graph=False, variant="extra")       # the strings of the EAV_EXTRA record on failures
     # recorded random histories over the large pool (it holds domains of 300-400 bytes that the real converter refuses):
     # allocation balance at every eav_free, outcome equal to a fresh object after every failure
     suite_random_histories(ctx, 20 if ctx.quick() else 200, 200)
